@@ -21,6 +21,10 @@ theorem upd_other {α : Type} (f : Nat → α) (i j : Nat) (a : α) (h : j ≠ i
 @[simp] theorem setPc_entries (s : Sys V E) (t : Tid) (pc : PC V E) : (s.setPc t pc).entries = s.entries := rfl
 @[simp] theorem setPc_logs (s : Sys V E) (t : Tid) (pc : PC V E) : (s.setPc t pc).logs = s.logs := rfl
 @[simp] theorem setPc_hist (s : Sys V E) (t : Tid) (pc : PC V E) : (s.setPc t pc).hist = s.hist := rfl
+@[simp] theorem setPc_slock (s : Sys V E) (t : Tid) (pc : PC V E) : (s.setPc t pc).slock = s.slock := rfl
+@[simp] theorem setPc_ghist (s : Sys V E) (t : Tid) (pc : PC V E) : (s.setPc t pc).ghist = s.ghist := rfl
+@[simp] theorem setEntry_slock (s : Sys V E) (p : Pid) (e : Entry V E) : (s.setEntry p e).slock = s.slock := rfl
+@[simp] theorem deliver_slock (s : Sys V E) (k : Cid) (p : Pid) (m : Msg V E) : (s.deliver k p m).slock = s.slock := rfl
 @[simp] theorem setPc_pc (s : Sys V E) (t : Tid) (pc : PC V E) : ((s.setPc t pc).thr t).pc = pc := by
   simp [Sys.setPc]
 theorem setPc_pc_other (s : Sys V E) (t t' : Tid) (pc : PC V E) (h : t' ≠ t) :
@@ -79,6 +83,7 @@ def pcPid : PC V E → Option Pid
   | .go p _ _ => some p
   | .stamped p _ _ => some p
   | .errset p _ _ => some p
+  | .built p _ _ _ => some p
   | .sending p _ _ _ _ => some p
   | .leaving p _ _ => some p
 
@@ -93,12 +98,21 @@ def Mid (c : Cfg V E) (e0 : Entry V E) (m0 : List (Msg V E)) (cur : Entry V E) (
   | .go _ now r => cur = storeValue e0 r ∧ emits c.o e0 now r = true ∧ ∀ k ∈ c.conns, lg k = m0
   | .stamped _ now r => cur = stamp (storeValue e0 r) now ∧ emits c.o e0 now r = true ∧ ∀ k ∈ c.conns, lg k = m0
   | .errset _ now r => cur = commit (storeValue e0 r) now r ∧ emits c.o e0 now r = true ∧ ∀ k ∈ c.conns, lg k = m0
+  | .built _ now r m => cur = commit (storeValue e0 r) now r ∧ emits c.o e0 now r = true ∧ m = mkMsg cur ∧
+      ∀ k ∈ c.conns, lg k = m0
   | .sending _ now r m rest => cur = commit (storeValue e0 r) now r ∧ emits c.o e0 now r = true ∧ m = mkMsg cur ∧
       ∃ done, c.conns = done ++ rest ∧ (∀ k ∈ done, lg k = m0 ++ [m]) ∧ (∀ k ∈ rest, lg k = m0)
   | .leaving _ now r => cur = (announceR c.o e0 now r).entry ∧
       ∀ k ∈ c.conns, lg k = m0 ++ (announceR c.o e0 now r).msg.toList
 
+/-- the thread is inside `broadcast_event`'s `with self._subscription_lock` -/
+def pcS : PC V E → Bool
+  | .sending _ _ _ _ _ => true
+  | _ => false
+
 structure Inv (c : Cfg V E) (init : Pid → Entry V E) (s : Sys V E) : Prop where
+  slFree : s.lock = none → s.slock = none
+  slOwner : ∀ t, s.lock = some t → s.slock = if pcS (s.thr t).pc then some t else none
   seenOk : ∀ k p, ∀ d ∈ s.logs k p, d.msg.ve = d.seen
   unlocked : s.lock = none → (∀ t, (s.thr t).pc = .idle) ∧ ∀ p, Clean c init s p
   locked : ∀ t, s.lock = some t → (∀ t', t' ≠ t → (s.thr t').pc = .idle) ∧
@@ -107,7 +121,7 @@ structure Inv (c : Cfg V E) (init : Pid → Entry V E) (s : Sys V E) : Prop wher
 
 theorem inv_init (c : Cfg V E) (init : Pid → Entry V E) (progs : Tid → List (Op V E)) (clock : Int) :
     Inv c init (Sys.init init progs clock) := by
-  refine ⟨?_, ?_, ?_⟩
+  refine ⟨fun _ => rfl, fun t ht => by simp [Sys.init] at ht, ?_, ?_, ?_⟩
   · intro k p d hd; simp [Sys.init] at hd
   · intro _; exact ⟨fun t => rfl, fun p => ⟨by simp [Sys.init, seqRun, runR], fun k _ => by simp [Sys.init, plog, seqRun, runR]⟩⟩
   · intro t ht; simp [Sys.init] at ht
@@ -139,6 +153,7 @@ theorem inv_inner {c : Cfg V E} {init : Pid → Entry V E} {s s' : Sys V E} (hi 
     (hidle : ∀ t', t' ≠ t → (s.thr t').pc = .idle)
     (hclean : ∀ q, q ≠ p → Clean c init s q)
     (hl : s'.lock = some t) (hh : s'.hist = s.hist)
+    (hsl : s'.slock = if pcS (s'.thr t).pc then some t else none)
     (hthr : ∀ t', t' ≠ t → (s'.thr t').pc = (s.thr t').pc)
     (hent : ∀ q, q ≠ p → s'.entries q = s.entries q)
     (hlog : ∀ k q, q ≠ p → s'.logs k q = s.logs k q)
@@ -147,7 +162,7 @@ theorem inv_inner {c : Cfg V E} {init : Pid → Entry V E} {s s' : Sys V E} (hi 
     (hmid : Mid c (seqRun c init s p).entry (seqRun c init s p).msgs (s'.entries p) (fun k => plog s' k p)
       (s'.thr t).pc) : Inv c init s' := by
   have _ := hlk
-  refine ⟨?_, ?_, ?_⟩
+  refine ⟨(fun h => by rw [hl] at h; cases h), (fun t0 ht0 => by rw [hl] at ht0; cases ht0; exact hsl), ?_, ?_, ?_⟩
   · intro k q d hd
     by_cases hq : q = p
     · subst hq; exact hseen k d hd
@@ -185,7 +200,7 @@ theorem inv_stepIdle {c : Cfg V E} {init : Pid → Entry V E} {s s' : Sys V E} (
       by_cases h : t' = t
       · subst h; simp [hpc]
       · rw [upd_other _ _ _ _ h]
-    refine ⟨hi.seenOk, ?_, ?_⟩
+    refine ⟨hi.slFree, fun t0 hl => by rw [hpcs t0]; exact hi.slOwner t0 hl, hi.seenOk, ?_, ?_⟩
     · intro hl
       obtain ⟨h1, h2⟩ := hi.unlocked hl
       exact ⟨fun t' => by rw [hpcs t']; exact h1 t', fun p => (clean_frame p rfl rfl rfl).2 (h2 p)⟩
@@ -215,7 +230,8 @@ theorem inv_stepIdle {c : Cfg V E} {init : Pid → Entry V E} {s s' : Sys V E} (
       · rename_i hl
         cases hs
         obtain ⟨h1, h2⟩ := hi.unlocked hl
-        refine ⟨hi.seenOk, (fun h => by cases h), ?_⟩
+        refine ⟨(fun h => by cases h), (fun t0 ht0 => by cases ht0; simp [pcS]; exact hi.slFree hl), hi.seenOk,
+          (fun h => by cases h), ?_⟩
         intro t0 ht0
         cases ht0
         refine ⟨fun t' ht' => ?_, p, by simp [pcPid], fun q _ => (clean_frame q rfl rfl rfl).2 (h2 q), ?_⟩
@@ -226,6 +242,16 @@ theorem inv_stepIdle {c : Cfg V E} {init : Pid → Entry V E} {s s' : Sys V E} (
           exact ⟨this.1, this.2⟩
       · cases hs
 
+set_option hygiene false in
+/-- the subscription lock is untouched by a step between two pcs outside `broadcast_event` -/
+macro "slk" : tactic => `(tactic| (
+  have hs := hi.slOwner t hlk
+  rw [hpc] at hs
+  simp [pcS] at hs
+  first
+  | (simp [pcS, hs]; done)
+  | (simp only [setPc_pc, setPc_slock]; split <;> simp [pcS, hs])))
+
 theorem inv_step {c : Cfg V E} {init : Pid → Entry V E} {s s' : Sys V E} (hn : c.conns.Nodup)
     (hi : Inv c init s) (t : Tid) (hs : step c s t = some s') : Inv c init s' := by
   unfold step at hs
@@ -235,7 +261,7 @@ theorem inv_step {c : Cfg V E} {init : Pid → Entry V E} {s s' : Sys V E} (hn :
     rw [hpc] at hs; simp only [Option.some.injEq] at hs; subst hs
     obtain ⟨hlk, hidle, hclean, hmid⟩ := inv_mid hi t p (by rw [hpc]; simp) (by rw [hpc]; rfl)
     rw [hpc] at hmid
-    refine inv_inner hi t p hlk hidle hclean hlk rfl (fun t' h => setPc_pc_other _ _ _ _ h) (fun q _ => rfl)
+    refine inv_inner hi t p hlk hidle hclean hlk rfl (by slk) (fun t' h => setPc_pc_other _ _ _ _ h) (fun q _ => rfl)
       (fun k q _ => rfl) (by simp [pcPid]) (fun k d hd => hi.seenOk k p d hd) ?_
     simp only [setPc_pc, Mid] at hmid ⊢
     exact hmid
@@ -247,13 +273,13 @@ theorem inv_step {c : Cfg V E} {init : Pid → Entry V E} {s s' : Sys V E} (hn :
     cases r with
     | val v =>
       simp only [Option.some.injEq] at hs; subst hs
-      refine inv_inner hi t p hlk hidle hclean hlk rfl (fun t' h => setPc_pc_other _ _ _ _ h) (fun q _ => rfl)
+      refine inv_inner hi t p hlk hidle hclean hlk rfl (by slk) (fun t' h => setPc_pc_other _ _ _ _ h) (fun q _ => rfl)
         (fun k q _ => rfl) (by simp [pcPid]) (fun k d hd => hi.seenOk k p d hd) ?_
       simp only [setPc_pc, Mid]
       exact ⟨hmid.1, by rw [hmid.1], hmid.2⟩
     | err x =>
       simp only [Option.some.injEq] at hs; subst hs
-      refine inv_inner hi t p hlk hidle hclean hlk rfl (fun t' h => setPc_pc_other _ _ _ _ h) (fun q _ => rfl)
+      refine inv_inner hi t p hlk hidle hclean hlk rfl (by slk) (fun t' h => setPc_pc_other _ _ _ _ h) (fun q _ => rfl)
         (fun k q _ => rfl) (by simp only [setPc_pc]; split <;> simp [pcPid]) (fun k d hd => hi.seenOk k p d hd) ?_
       simp only [setPc_pc, setPc_entries]
       rw [hmid.1]
@@ -270,7 +296,7 @@ theorem inv_step {c : Cfg V E} {init : Pid → Entry V E} {s s' : Sys V E} (hn :
     obtain ⟨hlk, hidle, hclean, hmid⟩ := inv_mid hi t p (by rw [hpc]; simp) (by rw [hpc]; rfl)
     rw [hpc] at hmid
     simp only [Mid] at hmid
-    refine inv_inner hi t p hlk hidle hclean hlk rfl (fun t' h => setPc_pc_other _ _ _ _ h)
+    refine inv_inner hi t p hlk hidle hclean hlk rfl (by slk) (fun t' h => setPc_pc_other _ _ _ _ h)
       (fun q hq => setEntry_other _ _ _ _ hq) (fun k q _ => rfl) (by simp [pcPid])
       (fun k d hd => hi.seenOk k p d hd) ?_
     simp only [setPc_pc, setPc_entries, setEntry_same, Mid]
@@ -280,7 +306,7 @@ theorem inv_step {c : Cfg V E} {init : Pid → Entry V E} {s s' : Sys V E} (hn :
     obtain ⟨hlk, hidle, hclean, hmid⟩ := inv_mid hi t p (by rw [hpc]; simp) (by rw [hpc]; rfl)
     rw [hpc] at hmid
     simp only [Mid] at hmid
-    refine inv_inner hi t p hlk hidle hclean hlk rfl (fun t' h => setPc_pc_other _ _ _ _ h) (fun q _ => rfl)
+    refine inv_inner hi t p hlk hidle hclean hlk rfl (by slk) (fun t' h => setPc_pc_other _ _ _ _ h) (fun q _ => rfl)
       (fun k q _ => rfl) (by simp only [setPc_pc]; split <;> simp [pcPid]) (fun k d hd => hi.seenOk k p d hd) ?_
     simp only [setPc_pc, setPc_entries]
     obtain ⟨h1, h2, h3⟩ := hmid
@@ -309,7 +335,7 @@ theorem inv_step {c : Cfg V E} {init : Pid → Entry V E} {s s' : Sys V E} (hn :
     obtain ⟨hlk, hidle, hclean, hmid⟩ := inv_mid hi t p (by rw [hpc]; simp) (by rw [hpc]; rfl)
     rw [hpc] at hmid
     simp only [Mid] at hmid
-    refine inv_inner hi t p hlk hidle hclean hlk rfl (fun t' h => setPc_pc_other _ _ _ _ h)
+    refine inv_inner hi t p hlk hidle hclean hlk rfl (by slk) (fun t' h => setPc_pc_other _ _ _ _ h)
       (fun q hq => setEntry_other _ _ _ _ hq) (fun k q _ => rfl) (by simp [pcPid])
       (fun k d hd => hi.seenOk k p d hd) ?_
     simp only [setPc_pc, setPc_entries, setEntry_same, Mid]
@@ -319,7 +345,7 @@ theorem inv_step {c : Cfg V E} {init : Pid → Entry V E} {s s' : Sys V E} (hn :
     obtain ⟨hlk, hidle, hclean, hmid⟩ := inv_mid hi t p (by rw [hpc]; simp) (by rw [hpc]; rfl)
     rw [hpc] at hmid
     simp only [Mid] at hmid
-    refine inv_inner hi t p hlk hidle hclean hlk rfl (fun t' h => setPc_pc_other _ _ _ _ h)
+    refine inv_inner hi t p hlk hidle hclean hlk rfl (by slk) (fun t' h => setPc_pc_other _ _ _ _ h)
       (fun q hq => setEntry_other _ _ _ _ hq) (fun k q _ => rfl) (by simp [pcPid])
       (fun k d hd => hi.seenOk k p d hd) ?_
     simp only [setPc_pc, setPc_entries, setEntry_same, Mid]
@@ -329,10 +355,23 @@ theorem inv_step {c : Cfg V E} {init : Pid → Entry V E} {s s' : Sys V E} (hn :
     obtain ⟨hlk, hidle, hclean, hmid⟩ := inv_mid hi t p (by rw [hpc]; simp) (by rw [hpc]; rfl)
     rw [hpc] at hmid
     simp only [Mid] at hmid
-    refine inv_inner hi t p hlk hidle hclean hlk rfl (fun t' h => setPc_pc_other _ _ _ _ h) (fun q _ => rfl)
+    refine inv_inner hi t p hlk hidle hclean hlk rfl (by slk) (fun t' h => setPc_pc_other _ _ _ _ h) (fun q _ => rfl)
       (fun k q _ => rfl) (by simp [pcPid]) (fun k d hd => hi.seenOk k p d hd) ?_
     simp only [setPc_pc, setPc_entries, Mid]
-    exact ⟨hmid.1, hmid.2.1, trivial, [], by simp, by simp, hmid.2.2⟩
+    exact ⟨hmid.1, hmid.2.1, trivial, hmid.2.2⟩
+  | built p now r m =>
+    rw [hpc] at hs
+    obtain ⟨hlk, hidle, hclean, hmid⟩ := inv_mid hi t p (by rw [hpc]; simp) (by rw [hpc]; rfl)
+    rw [hpc] at hmid
+    simp only [Mid] at hmid
+    have hs0 := hi.slOwner t hlk
+    rw [hpc] at hs0
+    simp [pcS] at hs0
+    simp only [hs0, if_true, Option.some.injEq] at hs; subst hs
+    refine inv_inner hi t p hlk hidle hclean hlk rfl (by simp [pcS]) (fun t' h => setPc_pc_other _ _ _ _ h)
+      (fun q _ => rfl) (fun k q _ => rfl) (by simp [pcS, pcPid]) (fun k d hd => hi.seenOk k p d hd) ?_
+    simp only [setPc_pc, setPc_entries, Mid]
+    exact ⟨hmid.1, hmid.2.1, hmid.2.2.1, [], by simp, by simp, hmid.2.2.2⟩
   | sending p now r m rest =>
     rw [hpc] at hs
     obtain ⟨hlk, hidle, hclean, hmid⟩ := inv_mid hi t p (by rw [hpc]; simp) (by rw [hpc]; rfl)
@@ -342,12 +381,13 @@ theorem inv_step {c : Cfg V E} {init : Pid → Entry V E} {s s' : Sys V E} (hn :
     cases rest with
     | nil =>
       simp only [Option.some.injEq] at hs; subst hs
-      refine inv_inner hi t p hlk hidle hclean hlk rfl (fun t' h => setPc_pc_other _ _ _ _ h) (fun q _ => rfl)
+      refine inv_inner hi t p hlk hidle hclean hlk rfl (by slk) (fun t' h => setPc_pc_other _ _ _ _ h) (fun q _ => rfl)
         (fun k q _ => rfl) (by simp [pcPid]) (fun k d hd => hi.seenOk k p d hd) ?_
       simp only [setPc_pc, setPc_entries, Mid, announceR_go _ _ _ _ h2, plog_setPc]
       refine ⟨h1, fun k hk => ?_⟩
       simp only [List.append_nil] at h4
       rw [h4] at hk
+      show plog s k p = _
       rw [h5 k hk, h3, h1]; rfl
     | cons k rest =>
       simp only [Option.some.injEq] at hs; subst hs
@@ -359,7 +399,7 @@ theorem inv_step {c : Cfg V E} {init : Pid → Entry V E} {s s' : Sys V E} (hn :
       have hk_rest : k ∉ rest := by
         have := (List.nodup_append.1 hnd).2.1
         exact (List.nodup_cons.1 this).1
-      refine inv_inner hi t p hlk hidle hclean hlk rfl (fun t' h => setPc_pc_other _ _ _ _ h) (fun q _ => rfl)
+      refine inv_inner hi t p hlk hidle hclean hlk rfl (by slk) (fun t' h => setPc_pc_other _ _ _ _ h) (fun q _ => rfl)
         (fun k' q hq => deliver_other_param _ _ _ _ _ _ hq) (by simp [pcPid]) ?_ ?_
       · intro k' d hd
         simp only [setPc_logs] at hd
@@ -396,7 +436,10 @@ theorem inv_step {c : Cfg V E} {init : Pid → Entry V E} {s s' : Sys V E} (hn :
     obtain ⟨hlk, hidle, hclean, hmid⟩ := inv_mid hi t p (by rw [hpc]; simp) (by rw [hpc]; rfl)
     rw [hpc] at hmid
     simp only [Mid] at hmid
-    refine ⟨hi.seenOk, ?_, fun t0 h => by cases h⟩
+    have hs0 := hi.slOwner t hlk
+    rw [hpc] at hs0
+    simp [pcS] at hs0
+    refine ⟨fun _ => hs0, (fun t0 h => by cases h), hi.seenOk, ?_, fun t0 h => by cases h⟩
     intro _
     constructor
     · intro t'
@@ -431,5 +474,161 @@ theorem reach_of_runSched {V E : Type} [DecidableEq E] (c : Cfg V E) (s0 s s' : 
     · rename_i s1 hs; exact ih s1 (Reach.next t hr hs) h
     · cases h
 
+
+
+/-! ### the completed calls are an interleaving of the threads' programs -/
+
+/-- the calls of the funnel a program makes: parameter and resolved value-or-error, in program order -/
+def annR (o : Oracle V E) : List (Op V E) → List (Pid × VE V E)
+  | [] => []
+  | .announce p ev :: rest => (p, resolve o ev) :: annR o rest
+  | .accAcquire :: rest => annR o rest
+  | .accRelease :: rest => annR o rest
+
+/-- the call a thread is in the middle of -/
+def inflight (o : Oracle V E) : PC V E → List (Pid × VE V E)
+  | .idle => []
+  | .locked p ev => [(p, resolve o ev)]
+  | .timed p _ r => [(p, r)]
+  | .compared p _ v _ => [(p, .val v)]
+  | .stored p _ v _ => [(p, .val v)]
+  | .go p _ r => [(p, r)]
+  | .stamped p _ r => [(p, r)]
+  | .errset p _ r => [(p, r)]
+  | .built p _ r _ => [(p, r)]
+  | .sending p _ r _ _ => [(p, r)]
+  | .leaving p _ r => [(p, r)]
+
+/-- the completed calls of thread `t`, in the order of the global history -/
+def doneBy (t : Tid) (g : List (GItem V E)) : List (Pid × VE V E) :=
+  (g.filter (fun x => x.tid == t)).map (fun x => (x.pid, x.r))
+
+/-- the completed calls on parameter `p`, in the order of the global history -/
+def onParam (p : Pid) (g : List (GItem V E)) : List (REv V E) :=
+  (g.filter (fun x => x.pid == p)).map (fun x => ⟨x.now, x.r⟩)
+
+structure Shuf (c : Cfg V E) (progs : Tid → List (Op V E)) (s : Sys V E) : Prop where
+  thread : ∀ t, doneBy t s.ghist ++ (inflight c.o (s.thr t).pc ++ annR c.o (s.thr t).prog) = annR c.o (progs t)
+  proj : ∀ p, s.hist p = onParam p s.ghist
+
+theorem shuf_init (c : Cfg V E) (init : Pid → Entry V E) (progs : Tid → List (Op V E)) (clock : Int) :
+    Shuf c progs (Sys.init init progs clock) :=
+  ⟨fun t => by simp [Sys.init, doneBy, inflight], fun p => by simp [Sys.init, onParam]⟩
+
+theorem shuf_frame {c : Cfg V E} {progs : Tid → List (Op V E)} {s s' : Sys V E} (h : Shuf c progs s) (t : Tid)
+    (hg : s'.ghist = s.ghist) (hh : s'.hist = s.hist) (hother : ∀ t', t' ≠ t → s'.thr t' = s.thr t')
+    (ht : inflight c.o (s'.thr t).pc ++ annR c.o (s'.thr t).prog =
+          inflight c.o (s.thr t).pc ++ annR c.o (s.thr t).prog) : Shuf c progs s' := by
+  refine ⟨fun t' => ?_, fun p => by rw [hh, hg]; exact h.proj p⟩
+  by_cases htt : t' = t
+  · subst htt; rw [hg, ht]; exact h.thread t'
+  · rw [hg, hother t' htt]; exact h.thread t'
+
+theorem thr_setPc_same (s : Sys V E) (t : Tid) (pc : PC V E) : (s.setPc t pc).thr t = ⟨(s.thr t).prog, pc⟩ := by
+  simp [Sys.setPc]
+
+theorem thr_setPc_other (s : Sys V E) (t t' : Tid) (pc : PC V E) (h : t' ≠ t) : (s.setPc t pc).thr t' = s.thr t' := by
+  simp [Sys.setPc, upd_other _ _ _ _ h]
+
+theorem shuf_step {c : Cfg V E} {progs : Tid → List (Op V E)} {s s' : Sys V E} (h : Shuf c progs s) (t : Tid)
+    (hs : step c s t = some s') : Shuf c progs s' := by
+  unfold step at hs
+  cases hpc : (s.thr t).pc with
+  | idle =>
+    rw [hpc] at hs
+    unfold stepIdle at hs
+    cases hprog : (s.thr t).prog with
+    | nil => rw [hprog] at hs; cases hs
+    | cons op rest =>
+      rw [hprog] at hs
+      cases op with
+      | accAcquire =>
+        simp only at hs
+        split at hs
+        · cases hs
+          exact shuf_frame h t rfl rfl (fun t' ht' => upd_other _ _ _ _ ht') (by simp [hpc, hprog, annR, inflight])
+        · cases hs
+      | accRelease =>
+        simp only at hs
+        split at hs
+        · cases hs
+          exact shuf_frame h t rfl rfl (fun t' ht' => upd_other _ _ _ _ ht') (by simp [hpc, hprog, annR, inflight])
+        · cases hs
+      | announce p ev =>
+        simp only at hs
+        split at hs
+        · cases hs
+          exact shuf_frame h t rfl rfl (fun t' ht' => upd_other _ _ _ _ ht') (by simp [hpc, hprog, annR, inflight])
+        · cases hs
+  | locked p ev =>
+    rw [hpc] at hs; simp only [Option.some.injEq] at hs; subst hs
+    exact shuf_frame h t rfl rfl (fun t' ht' => thr_setPc_other _ _ _ _ ht') (by rw [thr_setPc_same]; simp [hpc, inflight])
+  | timed p now r =>
+    rw [hpc] at hs
+    cases r with
+    | val v =>
+      simp only [Option.some.injEq] at hs; subst hs
+      exact shuf_frame h t rfl rfl (fun t' ht' => thr_setPc_other _ _ _ _ ht') (by rw [thr_setPc_same]; simp [hpc, inflight])
+    | err x =>
+      simp only [Option.some.injEq] at hs; subst hs
+      exact shuf_frame h t rfl rfl (fun t' ht' => thr_setPc_other _ _ _ _ ht')
+        (by rw [thr_setPc_same]; simp only [hpc]; split <;> simp [inflight])
+  | compared p now v chg =>
+    rw [hpc] at hs; simp only [Option.some.injEq] at hs; subst hs
+    exact shuf_frame h t rfl rfl (fun t' ht' => thr_setPc_other _ _ _ _ ht') (by rw [thr_setPc_same]; simp [hpc, inflight])
+  | stored p now v chg =>
+    rw [hpc] at hs; simp only [Option.some.injEq] at hs; subst hs
+    exact shuf_frame h t rfl rfl (fun t' ht' => thr_setPc_other _ _ _ _ ht')
+      (by rw [thr_setPc_same]; simp only [hpc]; split <;> simp [inflight])
+  | go p now r =>
+    rw [hpc] at hs; simp only [Option.some.injEq] at hs; subst hs
+    exact shuf_frame h t rfl rfl (fun t' ht' => thr_setPc_other _ _ _ _ ht') (by rw [thr_setPc_same]; simp [hpc, inflight])
+  | stamped p now r =>
+    rw [hpc] at hs; simp only [Option.some.injEq] at hs; subst hs
+    exact shuf_frame h t rfl rfl (fun t' ht' => thr_setPc_other _ _ _ _ ht') (by rw [thr_setPc_same]; simp [hpc, inflight])
+  | errset p now r =>
+    rw [hpc] at hs; simp only [Option.some.injEq] at hs; subst hs
+    exact shuf_frame h t rfl rfl (fun t' ht' => thr_setPc_other _ _ _ _ ht') (by rw [thr_setPc_same]; simp [hpc, inflight])
+  | built p now r m =>
+    rw [hpc] at hs
+    simp only at hs
+    split at hs
+    · simp only [Option.some.injEq] at hs; subst hs
+      exact shuf_frame h t rfl rfl (fun t' ht' => thr_setPc_other _ _ _ _ ht') (by rw [thr_setPc_same]; simp [hpc, inflight])
+    · cases hs
+  | sending p now r m rest =>
+    rw [hpc] at hs
+    cases rest with
+    | nil =>
+      simp only [Option.some.injEq] at hs; subst hs
+      exact shuf_frame h t rfl rfl (fun t' ht' => thr_setPc_other _ _ _ _ ht') (by rw [thr_setPc_same]; simp [hpc, inflight])
+    | cons k rest =>
+      simp only [Option.some.injEq] at hs; subst hs
+      exact shuf_frame h t rfl rfl (fun t' ht' => thr_setPc_other _ _ _ _ ht') (by rw [thr_setPc_same]; simp [hpc, inflight])
+  | leaving p now r =>
+    rw [hpc] at hs; simp only [Option.some.injEq] at hs; subst hs
+    refine ⟨fun t' => ?_, fun q => ?_⟩
+    · by_cases htt : t' = t
+      · subst htt
+        have := h.thread t'
+        rw [hpc] at this
+        rw [thr_setPc_same]
+        simp only [setPc_ghist, doneBy, List.filter_append, List.map_append, inflight, List.nil_append] at this ⊢
+        simpa [doneBy, inflight] using this
+      · have := h.thread t'
+        rw [thr_setPc_other _ _ _ _ htt]
+        have hne : (t == t') = false := by simpa using (fun h => htt h.symm)
+        simpa [doneBy, List.filter_append, hne] using this
+    · by_cases hq : q = p
+      · subst hq
+        simp [onParam, List.filter_append, h.proj q]
+      · have hne : (p == q) = false := by simpa using (fun h => hq h.symm)
+        simp [onParam, List.filter_append, hne, upd_other _ _ _ _ hq, h.proj q]
+
+theorem shuf_reach {c : Cfg V E} {init : Pid → Entry V E} {progs : Tid → List (Op V E)} {clock : Int}
+    {s : Sys V E} (hr : Reach c (Sys.init init progs clock) s) : Shuf c progs s := by
+  induction hr with
+  | start => exact shuf_init c init progs clock
+  | next t _ hs ih => exact shuf_step ih t hs
 
 end Frappy.UpdateSys
